@@ -394,7 +394,26 @@ void mon_init(int argc, char **argv)
              MO.shard, MO.nshards, MO.start, MO.only);
 }
 
+static void dump_stats(void);
+
+/* planned restart (e.g. after LeakSanitizer reported at a quiescent point: the
+ * report would repeat for ever otherwise): close the case, dump counters, exit 77;
+ * the orchestrator resumes after this case without recording a crash */
+void mon_restart(void)
+{
+    mon_logf("END %ld", mon_case_idx);
+    dump_stats();
+    mon_logf("RESTART %ld", mon_case_idx);
+    _exit(77);
+}
+
 void mon_finish(void)
+{
+    dump_stats();
+    mon_logf("DONE");
+}
+
+static void dump_stats(void)
 {
     for (int i = 0; i < nstats; i++) mon_logf("STAT %s %ld", stats[i].name, stats[i].v);
     for (int c = 0; c < ndsets; c++) {
@@ -410,5 +429,4 @@ void mon_finish(void)
             }
         }
     }
-    mon_logf("DONE");
 }
